@@ -8,6 +8,7 @@ import (
 	"fmt"
 	"os"
 	"strings"
+	"time"
 )
 
 // A domain runs one case (its lines) and returns the output lines.
@@ -47,6 +48,21 @@ func runCaseSafe(d domain, lines []string) (out []string) {
 	return d(lines)
 }
 
+// caseTimeout bounds one case: a deadlocked implementation call cannot be interrupted, so the
+// process reports the hang and exits; the check re-runs the remaining cases in a new process.
+var caseTimeout = 5 * time.Second
+
+func runCaseWatched(d domain, lines []string) (out []string, hung bool) {
+	done := make(chan []string, 1)
+	go func() { done <- runCaseSafe(d, lines) }()
+	select {
+	case out = <-done:
+		return out, false
+	case <-time.After(caseTimeout):
+		return []string{"!HANG the case did not finish within " + caseTimeout.String() + " (deadlock or livelock in the implementation)"}, true
+	}
+}
+
 func main() {
 	if len(os.Args) < 2 {
 		fmt.Fprintln(os.Stderr, "usage: harness <domain> < cases")
@@ -64,10 +80,14 @@ func main() {
 	defer w.Flush()
 	for i, h := range hdrs {
 		fmt.Fprintln(w, h)
-		for _, o := range runCaseSafe(d, bodies[i]) {
+		out, hung := runCaseWatched(d, bodies[i])
+		for _, o := range out {
 			fmt.Fprintln(w, o)
 		}
 		w.Flush()
+		if hung {
+			os.Exit(3)
+		}
 	}
 }
 
